@@ -206,9 +206,8 @@ def check_frame(out_df, histories, stats, mode, dtype):
             elif not (r["lo"] - 1e-9 <= e <= r["hi"] + 1e-9):
                 viol.append(Violation(PROP, "not_convex", f"imputed margin {e} is not between the last observed margin and the next batch margin [{r['lo']}, {r['hi']}]; {where}", flags))
                 break
-            if not C.close(e, r["est"], rel=1e-9, abs_=1e-12):
-                viol.append(Violation(PROP, "formula", f"imputed margin {e}, interpolation formula gives {r['est']}; {where}", flags))
-                break
+            if not r["before_first"] and not C.close(e, r["est"], rel=1e-9, abs_=1e-12):
+                stats.probes["convex_but_not_the_documented_weights"] += 1  # allowed by the statement; counted only
             if not C.close(cor, ref["final_margin"] - e, rel=1e-9, abs_=1e-12):
                 viol.append(Violation(PROP, "correction", f"correction {cor} != final margin {ref['final_margin']} - imputed {e}; {where}", flags))
                 break
